@@ -86,6 +86,7 @@ class Engine:
         self.budget_paths = budget_paths
         self.axioms = list(T.base_axioms()) + list(reg.axioms)
         self.report = None
+        self.known = {}
         self._entail_cache = {}
         self.class_index = {}
         self._build_class_index()
@@ -135,6 +136,16 @@ class Engine:
         vc.meta.setdefault("assumed", list(dict.fromkeys(fr.st.assumed)))
         vc.meta.setdefault("trace", list(fr.st.trace))
         self.report.vcs.append(vc)
+        known = getattr(self, "known", None) or {}
+        gname = f"{fr.fn_key.split(':', 1)[1]}#{name}"
+        if gname in known and expect == "unsat":
+            # a listed known finding: the same obligation must hold outside the listed failing region
+            region = known[gname]["region"]
+            sf = fr.sub(spec=True)
+            rg = self.truth(self.ev(ast.parse(region.strip(), mode="eval").body, sf), sf)
+            vc2 = VC(name + "|outside-known-region", fr.fn_key, list(fr.st.pc) + [z3.Not(rg)], goal, kind=kind, line=line,
+                     tainted=fr.st.taint, props=pr, meta=dict(vc.meta))
+            self.report.vcs.append(vc2)
         return vc
 
     @staticmethod
@@ -323,6 +334,8 @@ class Engine:
             if name in mod.defs:
                 node = mod.defs[name]
                 if isinstance(node, ast.ClassDef):
+                    if self._is_exc_class(node):
+                        return mk_py(ExtRef(name))
                     return mk_py(ClassRef(name, mod.relpath))
                 return mk_py(FuncRef(f"{mod.relpath}:{name}", node=node, mod=mod))
             if name in mod.consts:
@@ -341,6 +354,8 @@ class Engine:
                 if nm in m2.defs:
                     node = m2.defs[nm]
                     if isinstance(node, ast.ClassDef):
+                        if self._is_exc_class(node):
+                            return mk_py(ExtRef(nm))
                         return mk_py(ClassRef(nm, rel))
                     return mk_py(FuncRef(f"{rel}:{nm}", node=node, mod=m2))
                 if nm in m2.consts:
@@ -357,8 +372,24 @@ class Engine:
             return mk_py(ExtRef(name))
         raise Unsupported(f"unresolved name {name}")
 
+    @staticmethod
+    def _is_exc_class(node):
+        for b in node.bases:
+            d = dotted(b)
+            if d and d.split(".")[-1].endswith(D.EXC_SUFFIX):
+                EXC_PARENTS.setdefault(node.name, d.split(".")[-1])
+                return True
+        return False
+
     def module_const(self, mod, name, fr):
         node = mod.consts[name]
+        if isinstance(node, ast.Call) and dotted(node.func) == "object" and not node.args:
+            # a module-level sentinel `NAME = object()`: a distinct object, never None
+            c = z3.Const(f"{mod.relpath}:{name}", V)
+            ax = (f"sentinel[{name}]", z3.And(T.is_VObj(c), T.tag(c) == T.TAG["obj"]))
+            if all(a[0] != ax[0] for a in self.axioms):
+                self.axioms.append(ax)
+            return mk_V(c)
         try:
             return self.ev(node, Frame(self, State(), mod, fr.fn_key))
         except Unsupported:
@@ -506,6 +537,8 @@ class Engine:
         if a.k in ("py", "iter", "z3") or b.k in ("py", "iter", "z3"):
             if a is b:
                 return a
+            if a.k == "py" and b.k == "py" and isinstance(a.t, FuncRef) and isinstance(b.t, FuncRef):
+                return mk_py({"choice": (c, a, b)})
             raise Unsupported("merge of python-level values")
         return mk_V(z3.If(c, self.as_V(a), self.as_V(b)))
 
@@ -614,6 +647,14 @@ class Engine:
             fr.st.assume(nz)
 
     def ev_Compare(self, node, fr):
+        if fr.spec:
+            try:
+                return self._ev_compare(node, fr)
+            except T.MissingEvent:
+                return mk_bool(False)
+        return self._ev_compare(node, fr)
+
+    def _ev_compare(self, node, fr):
         left = self.ev(node.left, fr)
         res = []
         for op, rn in zip(node.ops, node.comparators):
